@@ -20,7 +20,7 @@ def make_overlay(diff, tmp):
             shutil.copy(os.path.join("/repo", f), dst)
     r = subprocess.run(["patch", "-p1", "-s", "-d", tmp, "-i", os.path.abspath(diff)], capture_output=True, text=True)
     if r.returncode != 0:
-        raise SystemExit("patch failed for %s: %s%s" % (diff, r.stdout, r.stderr))
+        raise RuntimeError("patch failed for %s: %s%s" % (diff, r.stdout, r.stderr))
     ov = {"Replace": {os.path.join("/repo", f): os.path.join(tmp, f) for f in files}}
     p = os.path.join(tmp, "overlay.json")
     json.dump(ov, open(p, "w"))
@@ -40,7 +40,12 @@ def main():
     for diff in diffs:
         tmp = tempfile.mkdtemp(prefix="verif-mut-")
         try:
-            ov = make_overlay(diff, tmp)
+            try:
+                ov = make_overlay(diff, tmp)
+            except RuntimeError as ex:
+                print("%-50s DOES-NOT-APPLY %s" % (os.path.basename(diff), str(ex)[:200]), flush=True)
+                results.append((diff, "n/a", "does-not-apply"))
+                continue
             suite = "skipped"
             if "--no-suite" not in opts:
                 r = subprocess.run(["go", "test", "-vet=off", "-count=1", "-overlay", ov, "./..."], cwd="/repo",
